@@ -5,18 +5,35 @@
 package table_valued_functions
 
 //@ spec ZERO() int = 0 - 62135596800000000000
+// the time field of the last delivered record, and "t rounded down to a multiple of res" (floor, also before 1970)
+//@ spec tIn(idx int) int = IN[len(IN)-1].Values[idx].Time.ns
+//@ spec roundedDown(r int, t int, res int) bool = r <= t && t < r + res && (r == tdiv(t, res) * res || r == tdiv(t, res) * res - res)
 
 // C20 max_diff_watermark.
 //@ func (*maxDifferenceWatermarkGenerator).Run
 //@   stream 1 assumes resolution.Duration > 0 && maxDifference.Duration >= 0
 //@   stream 1 assumes len(IN) > 0 ==> 0 <= m.timeFieldIndex && m.timeFieldIndex < len(IN[len(IN)-1].Values)
 //@   stream 1 assumes len(INM) > 0 ==> INM[len(INM)-1].Type == 0
+//@   stream 1 assumes len(IN) > 0 ==> 0 - 4611686018427387904 <= tIn(m.timeFieldIndex) && tIn(m.timeFieldIndex) <= 4611686018427387904 && resolution.Duration <= 4611686018427387904 && maxDifference.Duration <= 4611686018427387904
 //@   stream 1 invariant initial: len(OUTM) == 0 ==> maxValue.ns == ZERO() && curWatermark.ns == ZERO()
 //@   stream 1 invariant current: len(OUTM) > 0 ==> OUTM[len(OUTM)-1].Watermark.ns == curWatermark.ns && curWatermark.ns == maxValue.ns - maxDifference.Duration && OUTM[len(OUTM)-1].Type == 0
 //@   stream 1 invariant increasing: forall(j, 1, len(OUTM), OUTM[j-1].Watermark.ns < OUTM[j].Watermark.ns)
 //@   stream 1 invariant nofabrication: len(OUT) <= len(IN)
+// eventwise (C20 statement): tIn is the record's time field; a record at or below the watermark current at its
+// arrival is dropped, every other record passes unchanged except EventTime := time field; a new watermark
+// (largest rounded-down time seen) - max_diff is sent exactly when the rounded-down time exceeds the largest so far
+// (the rounded-down time r of t is the multiple of the resolution with r <= t < r + resolution);
+// input watermarks are swallowed, other metadata forwarded.
+//@   stream 1 step IN pass: stepErr == nil && tIn(m.timeFieldIndex) > old(curWatermark.ns) ==> len(OUT) == old(len(OUT)) + 1 && lastOut().Values.base == lastIn().Values.base && lastOut().Values.off == lastIn().Values.off && lastOut().Values.len == lastIn().Values.len && lastOut().Retraction == lastIn().Retraction && lastOut().EventTime.ns == tIn(m.timeFieldIndex)
+//@   stream 1 step IN late: tIn(m.timeFieldIndex) <= old(curWatermark.ns) ==> len(OUT) == old(len(OUT))
+//@   stream 1 step IN timefield: stepErr == nil ==> L1_curTimeNanos == tIn(m.timeFieldIndex)
+//@   stream 1 step IN rounding: stepErr == nil ==> roundedDown(L1_curTimeValueRoundedDown.ns, L1_curTimeNanos, resolution.Duration)
+//@   stream 1 step IN newmax: stepErr == nil && L1_curTimeValueRoundedDown.ns > old(maxValue.ns) ==> len(OUTM) == old(len(OUTM)) + 1 && lastOutM().Type == 0 && lastOutM().Watermark.ns == L1_curTimeValueRoundedDown.ns - maxDifference.Duration && maxValue.ns == L1_curTimeValueRoundedDown.ns
+//@   stream 1 step IN nomax: stepErr == nil && L1_curTimeValueRoundedDown.ns <= old(maxValue.ns) ==> len(OUTM) == old(len(OUTM)) && maxValue.ns == old(maxValue.ns) && curWatermark.ns == old(curWatermark.ns)
+//@   stream 1 step INM swallow: stepErr == nil ==> len(OUT) == old(len(OUT)) && len(OUTM) == old(len(OUTM))
 //@   ensures increasing: forall(j, 1, len(OUTM), OUTM[j-1].Watermark.ns < OUTM[j].Watermark.ns)
 //@   ensures errprop: runErr != nil ==> result != nil
+//@   ensures errprop.args: evalErr(m.maxDifference, ctx) != nil || evalErr(m.resolution, ctx) != nil ==> result != nil
 
 // C21 tumble.
 //@ func (*tumble).Run
